@@ -14,7 +14,8 @@ import (
 // missing @ts on a write is filled with base+i seconds) on $MODEL_ENGINE /
 // $MODEL_POLICY and prints implementation and model replies side by side,
 // then the raw engine content. Development aid:
-//   MODEL_OPS=$'zadd "t" "k" "1" "m"\nzrange "t" "k" "0" "-1"' go test -tags verif ./model/ -run TestTriage -v
+//
+//	MODEL_OPS=$'zadd "t" "k" "1" "m"\nzrange "t" "k" "0" "-1"' go test -tags verif ./model/ -run TestTriage -v
 func TestTriage(t *testing.T) {
 	src := os.Getenv("MODEL_OPS")
 	if src == "" {
